@@ -268,6 +268,14 @@ def check_sentence_lines(ctx: Ctx) -> None:
                    "lines.extend(wrapped) must run in every iteration", where(lw, en))
 
 
+def check_wrapping_memos(ctx: Ctx) -> None:
+    """R-MEMO over the line-wrapping layer (today it keeps no such table at all)."""
+    from .common import check_memo_keys
+
+    n = check_memo_keys(ctx, "R-MEMO", ("flowmark.linewrapping",))
+    ctx.note("memo_stores_in_the_wrapping_layer", n)
+
+
 # ------------------------------------------------------------------------------------- L5 L6 L7
 def check_placeholders(ctx: Ctx) -> None:
     """L5: atomic constructs leave the text as NUL-delimited placeholders and all come back.
